@@ -1,2 +1,57 @@
-Theorem C17_placeholder : True. Proof. exact I. Qed.
-Print Assumptions C17_placeholder.
+(* C17 — the command-line tool reports the battles it was asked to run.
+   Cli.v is the literal model of cmd/gmars/main.go (run against the binary built
+   from /repo on every run); CliSpec.v is the documented flag table and the
+   reference battle; math/rand is a parameter (the list of positions drawn). *)
+From GM Require Import Base Text Sim Mars Compile Cli CliSpec C02Proof C17Proof.
+Open Scope N_scope.
+
+(* the flags -s -p -c -l -8 give exactly the documented configuration *)
+Theorem C17_flags_config :
+  forall f, fl_preset f = 0 ->
+    (0 <= fl_s f < 18446744073709551616)%Z -> (0 <= fl_p f < 18446744073709551616)%Z ->
+    (0 <= fl_c f < 18446744073709551616)%Z -> (0 <= fl_l f < 18446744073709551616)%Z ->
+    doc_config f = Some (cli_config f).
+Proof. exact flags_config. Qed.
+Print Assumptions C17_flags_config.
+
+(* a preset is the documented one, whatever the other flags say *)
+Theorem C17_presets :
+  (forall k, 1 <= k <= 6 -> k <> 5 -> preset_config k = doc_preset k) /\
+  match preset_config 5, doc_preset 5 with
+  | Some a, Some b =>
+      c_mode a = c_mode b /\ c_size a = c_size b /\ c_procs a = c_procs b /\ c_cycles a = c_cycles b /\
+      c_len a = c_len b /\ c_dist a = c_dist b /\ 2 * c_size a - 1 <= c_rl a /\ 2 * c_size a - 1 <= c_wl a
+  | _, _ => False
+  end.
+Proof. split; [exact preset_config_documented|exact preset_nop256]. Qed.
+Print Assumptions C17_presets.
+
+(* whatever positions are drawn: ties are the same for both, every round is counted at most
+   once and exactly as a win for one side, a tie for both, or (both dead) for nobody *)
+Theorem C17_conservation :
+  forall cfg w1 w2 positions t n t',
+    tally_ok n t -> cli_rounds cfg w1 w2 positions t = Some t' ->
+    tally_ok (n + Z.of_nat (length positions)) t'.
+Proof. exact rounds_conserved. Qed.
+Print Assumptions C17_conservation.
+
+(* one round of the tool is the reference battle at that placement *)
+Theorem C17_round_is_reference :
+  forall cfg w1 w2 pos,
+    round_guards cfg -> warrior_ok cfg w1 -> warrior_ok cfg w2 -> (0 <= pos < 18446744073709551616)%Z ->
+    validate cfg = true ->
+    cli_round cfg w1 (Some w2) pos = Some (ref_outcome cfg w1 (Some w2) pos).
+Proof. exact cli_round_is_reference. Qed.
+Print Assumptions C17_round_is_reference.
+
+(* with -F the two printed lines are the reference outcome times the number of rounds *)
+Theorem C17_fixed_output :
+  forall cfg w1 w2 f,
+    round_guards cfg -> warrior_ok cfg w1 -> warrior_ok cfg w2 -> (0 <= fl_F f < 18446744073709551616)%Z ->
+    validate cfg = true -> (0 <= fl_r f)%Z ->
+    match cli_rounds cfg w1 (Some w2) (fixed_positions f) (mkTa 0 0 0 0) with
+    | Some t => cli_output true t = tally_lines true (fl_r f) (ref_outcome cfg w1 (Some w2) (fl_F f))
+    | None => False
+    end.
+Proof. exact fixed_output. Qed.
+Print Assumptions C17_fixed_output.
